@@ -32,11 +32,12 @@ ALLOWED_AXIOMS: list[str] = []
 
 LABELS = {"get:uploadId": "LGet", "set:uploadId": "LSet", "acquire:local": "LAcq", "release:local": "LRel",
           "acquire:dlock": "LAcq", "release:dlock": "LRel", "call:create": "LCreate", "call:upload": "LUpload",
-          "call:complete": "LComplete", "var:get": "LVarGet", "var:set": "LVarSet", "var:delete": "LVarDel"}
+          "call:complete": "LComplete", "var:get": "LVarGet", "var:set": "LVarSet", "var:delete": "LVarDel",
+          "reg:get": "LRegGet", "reg:set": "LRegSet", "lock:new": "LNewLock"}
 ERR_CODE = {"ValueError": 1, "IndexError": 3, "AssertionError": 4, "RuntimeError": 5, "OSError": 6,
             "FileNotFoundError": 6, "FileExistsError": 6, "NotADirectoryError": 6, "IsADirectoryError": 6,
             "PermissionError": 6}
-READS = ("get:uploadId", "var:get")
+READS = ("get:uploadId", "var:get", "reg:get")
 
 
 # ======================================================================== harness: S3 writers under the scheduler
@@ -44,6 +45,10 @@ class Run:
     """Everything observed in one scheduled execution of the real writers."""
 
     def __init__(self, mode, threads):
+        self.fresh = mode == "local-fresh"   # the process-wide lock registry starts empty
+        self.full_mode = mode
+        mode = "local" if mode.startswith("local") else mode
+        self.registered = False              # the registry holds a lock at the end
         self.mode = mode
         self.threads = threads
         self.trace: Trace | None = None
@@ -102,6 +107,7 @@ def execute(mode: str, threads, schedule=(), complete=True, chooser=None, glue=N
     import odc.geo.cog._s3 as S3
 
     run = Run(mode, threads)
+    mode = run.mode
     for _cls in ("Variable", "Lock"):      # resolve the installed signatures before the fake module goes in
         if _cls not in _INSTALLED_SIG:
             try:
@@ -219,11 +225,50 @@ def execute(mode: str, threads, schedule=(), complete=True, chooser=None, glue=N
     fake = types.ModuleType("distributed")
     fake.Variable, fake.Lock, fake.get_client = Var, DLock, get_client
 
-    local_lock = SchedLock(sched, "local")
+    local_locks: list[SchedLock] = []
+
+    def new_lock():
+        """stands in for threading.Lock inside _s3.py: creating a lock is a scheduling point"""
+        sched.event("lock:new")
+        lk = SchedLock(sched, "local")
+        local_locks.append(lk)
+        return lk
+
+    class HookedState(dict):
+        """the process-wide registry `_state`: every access is a scheduling point; the operation itself
+        (dict.get / dict.setdefault / item assignment) is performed atomically when the thread is resumed"""
+
+        def get(self, *a):
+            sched.event("reg:get")
+            return dict.get(self, *a)
+
+        def __getitem__(self, k):
+            sched.event("reg:get")
+            return dict.__getitem__(self, k)
+
+        def __contains__(self, k):
+            sched.event("reg:get")
+            return dict.__contains__(self, k)
+
+        def setdefault(self, *a):
+            sched.event("reg:set")
+            return dict.setdefault(self, *a)
+
+        def __setitem__(self, k, v):
+            sched.event("reg:set")
+            dict.__setitem__(self, k, v)
+
+        def pop(self, *a):
+            sched.event("reg:set")
+            return dict.pop(self, *a)
+
     old_mod = sys.modules.get("distributed")
-    old_state = dict(S3._state)          # pylint: disable=protected-access
+    old_state, old_lock_cls = S3._state, S3.Lock     # pylint: disable=protected-access
     sys.modules["distributed"] = fake
-    S3._state["mpu_lock"] = local_lock   # what the real _mpu_local_lock() will hand out
+    # the real _mpu_local_lock() runs against an instrumented registry: empty (first use in the process)
+    # or already holding an (instrumented) lock
+    S3._state = HookedState() if run.fresh else HookedState({"mpu_lock": new_lock()})   # pylint: disable=protected-access
+    S3.Lock = new_lock
     try:
         mpu = HookedMPU("bucket", "some/key.tif")
         kw = {"ContentType": "image/tiff"}
@@ -265,7 +310,8 @@ def execute(mode: str, threads, schedule=(), complete=True, chooser=None, glue=N
         nw = (max(w for w, _ in threads) + 1) if threads else 0
         if mode == "local":
             run.uids = [mpu.__dict__["_uid"]]
-            run.locked = local_lock.locked()
+            run.locked = any(lk.locked() for lk in local_locks)
+            run.registered = dict.get(S3._state, "mpu_lock") is not None   # pylint: disable=protected-access
         else:
             run.uids = [writers[w].mpu.__dict__["_uid"] if w in writers else "" for w in range(nw)]
             run.locked = any(l.locked() for l in client.locks.values())
@@ -273,8 +319,7 @@ def execute(mode: str, threads, schedule=(), complete=True, chooser=None, glue=N
             if k not in LABELS:
                 run.unknown.append(k)
     finally:
-        S3._state.clear()
-        S3._state.update(old_state)
+        S3._state, S3.Lock = old_state, old_lock_cls   # pylint: disable=protected-access
         if old_mod is not None:
             sys.modules["distributed"] = old_mod
         else:
@@ -348,7 +393,7 @@ def ccall(c) -> str:
 
 
 LABEL_CODE = {"LGet": 0, "LSet": 1, "LAcq": 2, "LRel": 3, "LCreate": 4, "LUpload": 5, "LComplete": 6,
-              "LVarGet": 7, "LVarSet": 8, "LVarDel": 9}
+              "LVarGet": 7, "LVarSet": 8, "LVarDel": 9, "LRegGet": 10, "LNewLock": 11, "LRegSet": 12}
 
 
 def call_code(c) -> int:
@@ -372,7 +417,8 @@ def case_text(run: Run, packed=True) -> str:
     if run.mode == "local":
         ncreate = sum(1 for c in run.calls if c[2] == "create")
         head = "CLocalP" if packed else "CLocal true"
-        return f"{head} {cprogs('local', run.threads)} {steps} {ccalls} {outs} {cz(ncreate)} {cbool(run.locked)}"
+        return (f"{head} {cbool(not run.fresh)} {cprogs('local', run.threads)} {steps} {ccalls} {outs} {cz(ncreate)} "
+                f"{cbool(run.locked)} {cbool(run.registered)}")
     uids = clist([uid_num(u) for u in run.uids])
     return (f"{'CClusterP' if packed else 'CCluster'} {cprogs('cluster', run.threads)} {steps} {ccalls} {outs} "
             f"{uids} {cbool(run.deleted_at is not None)}")
@@ -426,7 +472,7 @@ def judge(run: Run):
 
 
 def run_to_replay(run: Run, what: str) -> dict:
-    return {"predicate": "schedule", "mode": run.mode, "threads": [[w, [list(o) for o in ops]] for w, ops in run.threads],
+    return {"predicate": "schedule", "mode": run.full_mode, "threads": [[w, [list(o) for o in ops]] for w, ops in run.threads],
             "schedule": run.trace.schedule, "events": run.trace.kinds,
             "client_calls": [list(map(str, c[1:5])) for c in run.calls],
             "outcomes": {str(k): list(map(str, v[:3])) for k, v in run.trace.outcome.items()}, "observed": what,
@@ -453,6 +499,8 @@ CONFIGS = {"local-2w": ("local", LOCAL_2W), "local-2w+f": ("local", LOCAL_2WF), 
            "local-seq": ("local", LOCAL_SEQ), "cluster-2w-2workers": ("cluster", CL_2W_DIFF),
            "cluster-2w-1worker": ("cluster", CL_2W_SAME), "cluster-2w+f": ("cluster", CL_2WF),
            "cluster-3w": ("cluster", CL_3W), "cluster-seq": ("cluster", CL_SEQ),
+           "fresh-2w": ("local-fresh", LOCAL_2W), "fresh-3w": ("local-fresh", LOCAL_3W),
+           "fresh-2w+f": ("local-fresh", LOCAL_2WF),
            "local-finalise-empty": ("local", [(0, [W(1)]), (1, [F(0), W(5)]), (0, [W(2)])]),
            "cluster-finalise-empty": ("cluster", [(0, [W(1)]), (1, [F(0), W(5)]), (0, [W(2)])])}
 
@@ -463,11 +511,18 @@ def plan(tier):
     the thread's own mpu.uploadId) | random; amount None = complete enumeration"""
     q = tier == "quick"
     return [
-        ("local-2w", "all", None),
-        ("local-2w+f", "glued", 2000 if q else None),
+        ("local-2w", "glued", None),
+        ("local-2w", "all", 1500 if q else None),
+        ("fresh-2w", "glued", None),
+        ("fresh-2w", "all", 800 if q else 20000),
+        ("fresh-2w", "random", 200 if q else 1500),
+        ("fresh-3w", "glued", 500 if q else 8000),
+        ("fresh-3w", "random", 300 if q else 1500),
+        ("fresh-2w+f", "random", 200 if q else 1500),
+        ("local-2w+f", "glued", 1200 if q else None),
         ("local-2w+f", "all", 400 if q else 15000),
         ("local-2w+f", "random", 200 if q else 1500),
-        ("local-3w", "glued", 800 if q else None),
+        ("local-3w", "glued", 500 if q else None),
         ("local-3w", "all", 200 if q else 5000),
         ("local-3w", "random", 200 if q else 1500),
         ("local-seq", "random", 150 if q else 1500),
@@ -479,9 +534,9 @@ def plan(tier):
         ("cluster-2w-1worker", "glued-uid", None),
         ("cluster-2w-1worker", "all", 500 if q else 5000),
         ("cluster-2w-1worker", "random", 200 if q else 1500),
-        ("cluster-2w+f", "glued", 800 if q else 8000),
+        ("cluster-2w+f", "glued", 600 if q else 8000),
         ("cluster-2w+f", "random", 200 if q else 1500),
-        ("cluster-3w", "glued", 800 if q else 8000),
+        ("cluster-3w", "glued", 600 if q else 8000),
         ("cluster-3w", "random", 200 if q else 1500),
         ("cluster-seq", "random", 150 if q else 1500),
         ("local-finalise-empty", "random", 20),
@@ -495,7 +550,7 @@ def summarise(run_: Run, name: str, how: str) -> dict:
             "case": case_text(run_), "plain": case_text(run_, packed=False), "problems": problems,
             "replay": run_to_replay(run_, "; ".join(problems)) if problems else None,
             "nthreads": len(run_.threads), "ncreates": sum(1 for c in run_.calls if c[2] == "create"),
-            "sample": {"config": name, "mode": run_.mode, "schedule": run_.trace.schedule, "events": run_.trace.kinds,
+            "sample": {"config": name, "mode": run_.full_mode, "schedule": run_.trace.schedule, "events": run_.trace.kinds,
                        "calls": run_.canon_calls(), "outcomes": run_.outcome_codes()}}
 
 
@@ -508,14 +563,14 @@ def derived(run_: Run, name: str, rng) -> list[dict]:
         return out
     if rng.random() < 0.03:
         k = rng.randrange(1, len(tr.steps))
-        out.append(summarise(execute(run_.mode, run_.threads, tr.schedule[:k], complete=False), name, "prefix"))
+        out.append(summarise(execute(run_.full_mode, run_.threads, tr.schedule[:k], complete=False), name, "prefix"))
     if rng.random() < 0.08:
         fin = tr.finish_step
         for i, st in enumerate(tr.steps):
             blocked = [t for t in range(len(run_.threads)) if t not in st.enabled and fin.get(t, 10 ** 9) > i]
             if blocked:
                 out.append({"name": name, "how": "blocked", "schedule": tr.schedule[:i] + [-1 - blocked[0]],
-                            "case": f"CDisabled {cbool(run_.mode == 'cluster')} {cprogs('cluster', run_.threads)} "
+                            "case": f"CDisabled {cbool(run_.mode == 'cluster')} {cbool(not run_.fresh)} {cprogs('cluster', run_.threads)} "
                                     f"{clist(tr.schedule[:i])} {cnat(blocked[0])}",
                             "problems": [], "replay": None})
                 break
@@ -633,10 +688,11 @@ def sink_dir_state(dst: Path, parts_dir: Path):
     return content, parts_dir.exists(), files
 
 
-def sink_run(base: Path, ws, order, keep, parts_base_kind):
+def sink_run(base: Path, ws, order, keep, parts_base_kind, pre=None):
     """Write parts `ws` = [(part, bytes)] through real sinks (two pickled copies, like
     the repo's own test), finalise with the returned dicts in `order` (part numbers;
-    a number never written is given a fabricated dictionary).  Returns result + state."""
+    a number never written is given a fabricated dictionary).  `pre`: content of a destination
+    file that exists beforehand (re-export to the same name).  Returns result + state."""
     import pickle
     from odc.geo.cog._mpu_fs import MPUFileSink
 
@@ -645,6 +701,8 @@ def sink_run(base: Path, ws, order, keep, parts_base_kind):
     base.mkdir(parents=True)
     dst = base / "out" / "result.bin"
     dst.parent.mkdir()
+    if pre is not None:
+        dst.write_bytes(pre)
     if parts_base_kind == "none":
         pb, parts_dir = None, dst.parent / ".result.bin.parts"
     elif parts_base_kind == "given":
@@ -675,7 +733,7 @@ def cbytes(b: bytes) -> str:
     return clist(list(b))
 
 
-def sink_case(ws, order, keep, res, state, empty_fails=False) -> str:
+def sink_case(ws, order, keep, res, state, empty_fails=False, pre=None) -> str:
     cws = "[" + "; ".join(ctuple(cz(p), cbytes(d)) for p, d in ws) + "]"
     if res[0] == "ok":
         content, dir_exists, files = state
@@ -686,13 +744,15 @@ def sink_case(ws, order, keep, res, state, empty_fails=False) -> str:
         code = ERR_CODE.get(res[1], 7)
         err = {1: "EValue", 4: "(EAssert 0)", 6: "EIO"}.get(code, "EOther")
         exp = f"(Err {err})"
-    return f"CSink {cbool(empty_fails)} {cws} {clist(order)} {cbool(keep)} {exp}"
+    cpre = "None" if pre is None else f"(Some {cbytes(pre)})"
+    return f"CSink {cbool(empty_fails)} {cpre} {cws} {clist(order)} {cbool(keep)} {exp}"
 
 
-def p_sink(base: Path, ws, order, parts_base_kind):
+def p_sink(base: Path, ws, order, parts_base_kind, pre=None):
     """Property: all parts written, finalise(parts in `order`) -> dst = concatenation in
-    that order, no part file, no parts directory."""
-    res, state, ok_write, parts = sink_run(base, ws, order, False, parts_base_kind)
+    that order (and nothing else, whatever the destination held before), no part file, no
+    parts directory."""
+    res, state, ok_write, parts = sink_run(base, ws, order, False, parts_base_kind, pre)
     last = {}
     for p, d in ws:
         last[p] = d
@@ -726,7 +786,10 @@ def gen_sink_inputs(rng, n):
             order.sort(reverse=True)
         else:
             rng.shuffle(order)
-        yield ws, order, rng.choice(["none", "given", "nested"])
+        pre = None
+        if rng.random() < 0.5:      # the destination exists already (re-export to the same name)
+            pre = bytes(rng.randrange(256) for _ in range(rng.choice([0, 1, 3, 9, 40])))
+        yield ws, order, rng.choice(["none", "given", "nested"]), pre
 
 
 # ======================================================================== limits
@@ -820,7 +883,7 @@ def run(out, tier, scratch):
                 "distinct = distinct (configuration, schedule) / canonical inputs; all are non-trivial (>= 2 threads racing).")
     out.assumptions += [
         "S3 (oracle): create_multipart_upload returns a non-empty UploadId (hypothesis new_id k <> 0 of the theorems; the fake client returns upload-1, upload-2, ...)",
-        "CPython: attribute reads/writes, dict.setdefault, threading.Lock and distributed.Lock/Variable operations are atomic; the scheduler parks threads exactly at these operations",
+        "CPython: attribute reads/writes, dict.get / dict.setdefault on the lock registry _state, threading.Lock and distributed.Lock/Variable operations are atomic; the scheduler parks threads exactly at these operations (registry accesses and Lock() creation inside _mpu_local_lock included; 'fresh' configurations start with an empty registry)",
         "_safe_get modelled as an immediate read (None once the Variable is deleted); its time-out on a set Variable is not modelled",
         "cluster theorems hold while the shared Variable has not been deleted (a completed finalise deletes it; finalise depends on all writes in a dask graph)",
         "file system restricted to dst, the parts directory and its part files; part file name is an injective function of the part number",
@@ -895,16 +958,19 @@ def run(out, tier, scratch):
     # 3. file sink
     base = Path(scratch) / "sink"
     nsink = 100 if tier == "quick" else 1200
-    for i, (ws, order, pbk) in enumerate(gen_sink_inputs(core.rng("c18-sink"), nsink)):
-        ok, detail = p_sink(base, ws, order, pbk)
+    for i, (ws, order, pbk, pre) in enumerate(gen_sink_inputs(core.rng("c18-sink"), nsink)):
+        ok, detail = p_sink(base, ws, order, pbk, pre)
+        out.count("sink:dst-exists-before" if pre is not None else "sink:dst-new")
         out.count("sink:property")
         out.count(f"sink:parts_base={pbk}")
         out.count("sink:has-empty-part" if any(len(d) == 0 for _, d in ws) else "sink:no-empty-part")
-        out.case(("sink", str(ws), tuple(order), pbk), True,
-                 {"writes": [[p, d.hex()] for p, d in ws], "order": order, "parts_base": pbk} if i < 2 else None)
+        hpre = None if pre is None else pre.hex()
+        out.case(("sink", str(ws), tuple(order), pbk, hpre), True,
+                 {"writes": [[p, d.hex()] for p, d in ws], "order": order, "parts_base": pbk, "pre": hpre} if i < 2 else None)
         if not ok:
-            violate("c18:sink", f"writes={[(p, len(d)) for p, d in ws]} order={order} parts_base={pbk}: {detail}",
-                    {"predicate": "sink", "writes": [[p, d.hex()] for p, d in ws], "order": order, "parts_base": pbk,
+            violate("c18:sink", f"writes={[(p, len(d)) for p, d in ws]} order={order} parts_base={pbk} "
+                                f"existing_dst={None if pre is None else len(pre)}: {detail}",
+                    {"predicate": "sink", "writes": [[p, d.hex()] for p, d in ws], "order": order, "parts_base": pbk, "pre": hpre,
                      "observed": detail, "expected": "dst == concatenation in the given order; no part file; no parts directory"})
         # the same input (and perturbed ones: keep_parts, a missing part, an unlisted part, no parts) against the model
         variants = [(ws, order, False)]
@@ -916,11 +982,12 @@ def run(out, tier, scratch):
             variants.append((ws, order + order[:1], False))
         variants.append((ws, [], False))
         for (ws2, order2, keep) in variants:
-            res, state, _, _ = sink_run(base, ws2, order2, keep, pbk)
-            cases.append(sink_case(ws2, order2, keep, res, state))
-            texts.append(f"sink writes={[(p, len(d)) for p, d in ws2]} order={order2} keep={keep} -> {res}")
+            res, state, _, _ = sink_run(base, ws2, order2, keep, pbk, pre)
+            cases.append(sink_case(ws2, order2, keep, res, state, pre=pre))
+            texts.append(f"sink existing_dst={None if pre is None else len(pre)} writes={[(p, len(d)) for p, d in ws2]} "
+                         f"order={order2} keep={keep} -> {res}")
             out.count("sink:model:" + (res[0] if res[0] == "ok" else res[1]))
-            out.case(("sinkm", str(ws2), tuple(order2), keep), True)
+            out.case(("sinkm", str(ws2), tuple(order2), keep, hpre), True)
     shutil.rmtree(base, ignore_errors=True)
 
     phase("sink")
@@ -1033,7 +1100,8 @@ def replay_one(rp, scratch=None):
     if kind == "sink":
         base = Path(scratch or "/tmp") / f"c18-replay-{os.getpid()}"
         try:
-            return p_sink(base, [(p, bytes.fromhex(d)) for p, d in rp["writes"]], rp["order"], rp["parts_base"])
+            return p_sink(base, [(p, bytes.fromhex(d)) for p, d in rp["writes"]], rp["order"], rp["parts_base"],
+                          None if rp.get("pre") is None else bytes.fromhex(rp["pre"]))
         finally:
             shutil.rmtree(base, ignore_errors=True)
     if kind == "limits":
@@ -1074,7 +1142,7 @@ META = {
     "note": ("Trusted: Coq kernel; the hand-written models coq/Model/S3Init.v and FileSink.v (validated by the scheduled "
              "correspondence, not derived from the source text); the scheduler and fakes (fake boto3 client returning "
              "upload-1, upload-2, ...; fake distributed Variable/Lock/get_client; uploadId turned into a property; the lock "
-             "handed out by the real _mpu_local_lock replaced through _state).  Oracles/contracts: S3 returns a non-empty "
+             "handed out by the real _mpu_local_lock replaced through _state; _state itself and threading.Lock as seen by _s3.py are instrumented so that registry reads/writes and lock creation are scheduling points, with the registry empty or pre-filled).  Oracles/contracts: S3 returns a non-empty "
              "UploadId (theorem hypothesis new_id k <> 0); CPython atomicity of attribute access, dict.setdefault, Lock; "
              "distributed.Variable/Lock semantics as implemented by the fakes; _safe_get is an immediate read (time-outs on "
              "a set variable are NOT modelled).  Domain restrictions in the theorems: every finalise gets >= 1 part "
